@@ -260,22 +260,39 @@ func trimDump(d string) string {
 	return s
 }
 
-// quiet waits until every accepted callback has started and finished (or max elapsed).
+// quiet waits until every request placed in the in-channel has been taken by the listener and
+// every accepted callback has started and finished (or max elapsed).
 func quiet(sc *Scenario, max time.Duration) {
 	deadline := time.Now().Add(max)
 	for time.Now().Before(deadline) {
-		enq, st, en := 0, 0, 0
-		for _, e := range sc.tr.Events() {
+		enq, st, en, delivered, recv := 0, 0, 0, 0, 0
+		pendingListener := map[int64]bool{}
+		evs := sc.tr.Events()
+		from := 0
+		for i, e := range evs {
+			if e.Point == "serve.go" {
+				from = i // only the current life of the service counts
+			}
+		}
+		for _, e := range evs[from:] {
 			switch e.Point {
 			case "rw.enq":
 				enq++
+				delete(pendingListener, e.G)
+			case "rw.refused":
+				delete(pendingListener, e.G)
 			case "cb.start":
 				st++
 			case "cb.end":
 				en++
+			case "delivered":
+				delivered++
+			case "hr.recv":
+				recv++
+				pendingListener[e.G] = true // the listener is between receipt and enqueue/refusal
 			}
 		}
-		if enq == st && st == en {
+		if enq == st && st == en && delivered == recv && len(pendingListener) == 0 {
 			return
 		}
 		time.Sleep(500 * time.Microsecond)
